@@ -20,6 +20,7 @@ from ..core.defuse import rd_of, Expander, fmt_term
 from ..core.loader import unparse, AnalysisError
 from ..rules import dispatch as D
 from ..rules.sign import SignEval, step_and_chunk_sites, MAYZERO, POS, UNK
+from ..rules import cursors as CU
 from .C01 import check_chunk_protocol
 
 ID = 'C05'
@@ -78,6 +79,10 @@ def check(ctx):
     check_iterator_arms(ctx)
     check_chunk_protocol(ctx, rule='R-SAMEVAL/cursor')
     check_signs(ctx, ANCHOR_MODULES)
+    check_cursor_use(ctx, ANCHOR_MODULES, floor=3)
+    check_tiles(ctx, ANCHOR_MODULES, floor=2)
+    from .C13 import check_index_spaces
+    check_index_spaces(ctx)
 
 
 def check_dispatch(ctx, dispatchers, rule='R-EXH/encoding'):
@@ -216,3 +221,25 @@ def _check_chunk_vs_shape(ctx, fi, ex, call, expr, node, anchored):
                        f'({fmt_term(s)[:40]}): h5py rejects a chunk larger '
                        'than a fixed shape, so small matrices cannot be '
                        'written', advisory=not anchored)
+
+
+def check_cursor_use(ctx, modules, floor=1, rule='R-CURSOR/used'):
+    """every advancing write cursor of the assembly loops positions a
+    store of its loop (sa/rules/cursors.py)"""
+    n = 0
+    for fi in ctx.db.iter_functions():
+        if fi.module.short in modules:
+            n += CU.check_cursors(ctx, fi, rule)
+    if n < floor:
+        raise AnalysisError(f'only {n} write cursors found in {modules}')
+
+
+def check_tiles(ctx, modules, floor=1, rule='R-TILE/window'):
+    """chunked loops tile their axis exactly (sa/rules/tiling.py)"""
+    from ..rules.tiling import check_tiling
+    n = 0
+    for fi in ctx.db.iter_functions():
+        if fi.module.short in modules:
+            n += check_tiling(ctx, fi, rule)
+    if n < floor:
+        raise AnalysisError(f'only {n} chunked loops found in {modules}')
